@@ -184,6 +184,12 @@ def cls_where_reads_element_of_assigned_array(case):
         for mat in re.finditer(r"\b([a-z_]\w*)\(([^()]*)\)", blk):
             if mat.group(1) in assigned and ":" not in mat.group(2):
                 return True
+        # ... or as a whole array inside a reduction: sum(d), maxval(d)
+        for mat in re.finditer(
+                r"\b(?:sum|product|maxval|minval|dot_product|size)\(\s*"
+                r"([a-z_]\w*)\s*[,)]", blk):
+            if mat.group(1) in assigned:
+                return True
     return False
 
 
